@@ -51,6 +51,9 @@ def evaluate(op, schemas, value, extra):
             Random().set_seed(extra)
             return ~schemas[0]
         return fingerprint(gen)
+    if op == "panel":
+        from . import panel
+        return fingerprint(panel.run)
     if op == "eq":
         return fingerprint(lambda: (schemas[0] == schemas[1], schemas[0] != schemas[1]))
     raise ValueError(op)
